@@ -278,6 +278,60 @@ def conn_ids(run):
     run.add_part('connection_ids', res)
 
 
+def scenario_part(run):
+    """(c) the universe history through GDB mode and through log mode: after resolution the
+    two modes must print the same connection names, type@id+letters tokens, argument names,
+    enum labels and nil types."""
+    from .. import gdbenv, outparse
+    from ..ref import matchsem as ms
+    import gdb
+    res = explore.Result()
+    msgs = [dict(m, t_us=ms.T0 + n * 100) for n, m in enumerate(ms.UNIVERSE)]
+    lines = [wlprint.render(m, 'cur') for m in msgs]
+    s = sut.Session()
+    log_recs = []
+    for l in lines:
+        o, _ = s.feed_line(l)
+        log_recs.append([outparse.classify(x)[1] for x in o if outparse.classify(x)[0] == 'message'])
+    env = gdbenv.make_plugin()
+    inf = gdbenv.Inferior()
+    gdb_recs = []
+    for m in msgs:
+        c = gdbenv.closure_from_print(m, side='client', conn=int(m['conn']))
+        loc = inf.present(c)
+        o0 = len(env['out'].buffer)
+        env['bps'][loc].stop()
+        new = sut._lines(env['out'].buffer[o0:])
+        gdb_recs.append([outparse.classify(x)[1] for x in new if outparse.classify(x)[0] == 'message'])
+
+    def essence(r):
+        args = []
+        for a in r['args']:
+            e = [a['name'], a['kind']]
+            if a['kind'] in ('obj', 'new'):
+                e.append(outparse.label(a))
+            elif a['kind'] == 'nil':
+                e.append(a['type'])
+            elif a['kind'] == 'int':
+                e += [a['value'], a.get('labels')]
+            elif a['kind'] in ('float', 'str', 'fd'):
+                e.append(a['value'])
+            args.append(e)
+        d = r['destroyed']
+        return [r['conn'], r['sent'], outparse.label(r['obj']), r['name'], args, outparse.label(d) if d else None]
+    for m, a, b in zip(msgs, log_recs, gdb_recs):
+        res.evaluations += 1
+        res.transitions += 2
+        res.validated += 1
+        if len(a) != 1 or len(b) != 1 or essence(a[0]) != essence(b[0]):
+            res.violations.append(Violation('crossmode.resolved', {'scenario_index': msgs.index(m)},
+                                            {'log_mode': a and a[0]['text'], 'gdb_mode': b and b[0]['text']}))
+    res.states = res.evaluations
+    res.nontrivial = res.evaluations
+    res.samples = [{'universe_messages': len(msgs)}]
+    run.add_part('scenario_both_modes', res)
+
+
 def run(run, tier, seed):
     sut.bind(fake_gdb=True)
     sut.ensure_protocols()
@@ -285,6 +339,7 @@ def run(run, tier, seed):
                        bound={'signature_length': 2 if tier == 'quick' else 3, 'positions': 20, 'array_follower_table': 'len 0..4 x i<j<6 x 9 kinds'})
     run.add_part('closures', res)
     conn_ids(run)
+    scenario_part(run)
     if tier == 'thorough':
         from .. import gdbreplay
         gdbreplay.replay_part(run, 'C09')
@@ -306,6 +361,14 @@ def replay(case):
             def add_part(self, n, res):
                 r.violations = res.violations
         conn_ids(_R())
+        return r.violations
+    if 'scenario_index' in case:
+        r = explore.Result()
+
+        class _R2:
+            def add_part(self, n, res):
+                r.violations = [v for v in res.violations if v.case == case]
+        scenario_part(_R2())
         return r.violations
     if case.get('gdb_replay'):
         from .. import gdbreplay
